@@ -456,35 +456,29 @@ func runDates(o *hx.Opts, res *hx.Result, r *hx.Rand) {
 			}
 		}
 
-		// the same two texts as the stored text of a contact field value (flows/field.go FieldValues.Parse)
+		// the same two texts as the stored text of a contact field value (flows/field.go FieldValues.Parse).  The datetime
+		// a field keeps is the conversion of the text (judged above against the statement) as marshalled and read back,
+		// which has to be the same instant; the one way it is known not to be is the ISO form's dropped offset seconds.
 		for k, txt := range []string{isoTxt, fmtTxt} {
 			res.OracleChecks++
+			ref := []*time.Time{isoBack, fmtBack}[k]
 			v := flows.FieldValues{}.Parse(e.env, nil, dtField, txt)
 			var fback *time.Time
-			if v == nil || v.Datetime == nil {
-				res.Fail([]string{"iso-datetime-not-reparsed", "envformat-datetime-not-reparsed:" + e.fmtName()}[k], input, fmt.Sprintf("FieldValues.Parse(%q) has no datetime", txt))
-			} else {
+			if v != nil && v.Datetime != nil {
 				b := v.Datetime.Native()
 				fback = &b
-				judge := judgeISO
-				if k == 1 {
-					judge = judgeFmt
+			}
+			switch {
+			case fback == nil && ref != nil:
+				res.Fail("field-datetime:text-not-stored-as-datetime", input, fmt.Sprintf("FieldValues.Parse(%q) has no datetime, ToXDateTime has", txt))
+			case fback != nil && ref == nil:
+				res.Fail("field-datetime:differs-from-converted-text", input, fmt.Sprintf("FieldValues.Parse(%q) has a datetime, ToXDateTime fails", txt))
+			case fback != nil && !fback.Equal(*ref):
+				class := "field-datetime:differs-from-converted-text"
+				if _, roff := ref.Zone(); roff%60 != 0 && fback.Sub(*ref) == time.Duration(roff%60)*time.Second {
+					class = "iso-datetime-roundtrip:zone-offset-seconds-dropped"
 				}
-				class, detail := judge(b)
-				if _, eoff := t.In(e.loc).Zone(); class != "" && k == 1 && eoff%60 != 0 {
-					// a field keeps its datetime as marshalled and read back (FormatISO): in a zone whose offset has
-					// seconds that drops them, the known defect of the ISO form
-					c2, d2 := judge(b.Add(-time.Duration(eoff%60) * time.Second))
-					if c2 == "" {
-						class, detail = "iso-datetime-roundtrip:zone-offset-seconds-dropped", fmt.Sprintf("stored as %s, %ds away from the instant the text reads as (zone offset %ds)", b.Format(time.RFC3339Nano), eoff%60, eoff)
-					} else {
-						// two defects at once: what remains once the dropped seconds are put back
-						class, detail = c2, d2+" (after putting back the seconds the stored form dropped)"
-					}
-				}
-				if class != "" {
-					res.Fail(class, input, fmt.Sprintf("FieldValues.Parse(%q).Datetime: %s", txt, detail))
-				}
+				res.Fail(class, input, fmt.Sprintf("FieldValues.Parse(%q).Datetime is %s, the text converts to %s", txt, fback.Format(time.RFC3339Nano), ref.Format(time.RFC3339Nano)))
 			}
 			w.add(coqField(e, fill, txt, v, fback), input, fmt.Sprint(fback))
 		}
